@@ -189,14 +189,14 @@ func drawRandomInput(r io.Reader) []byte {
 // hashed with SHAKE128.
 func TestVerifSelfCheckAccumulated(t *testing.T) {
 	var vs []struct {
-		Mode                     int
-		KEM                      uint16 `json:"kem_id"`
-		KDF                      uint16 `json:"kdf_id"`
-		AEAD                     uint16 `json:"aead_id"`
-		Info, IkmE, IkmR         string
-		SkRm, PkRm, Enc          string
-		AccEnc                   string `json:"encryptions_accumulated"`
-		AccExp                   string `json:"exports_accumulated"`
+		Mode             int
+		KEM              uint16 `json:"kem_id"`
+		KDF              uint16 `json:"kdf_id"`
+		AEAD             uint16 `json:"aead_id"`
+		Info, IkmE, IkmR string
+		SkRm, PkRm, Enc  string
+		AccEnc           string `json:"encryptions_accumulated"`
+		AccExp           string `json:"exports_accumulated"`
 	}
 	readJSON(t, lib.Root()+"/testdata/hpke/rfc9180-accumulated.go126.json", &vs)
 	done := 0
